@@ -40,12 +40,12 @@ return (why == ""), (why or "same")
 
 USE = {"int.minmax", "str.lenrange", "str.alphabet", "list.typed", "list.typed.len", "list.exact", "list.head", "list.tail",
        "list.body", "list.typed.wild", "dict.strict", "dict.relaxed", "dict.wild.member", "dict.intkeys", "dict.untyped",
-       "nest.dict.list.dict", "nest.list.list", "any.3", "any.in.list", "alias", "alias.in.dict", "uuid4",
+       "nest.dict.list.dict", "nest.list.list", "any.3", "any.dup", "any.in.list", "alias", "alias.in.dict", "uuid4",
        "bool.value", "none", "list.untyped.len", "dict.empty"}
 
 
 QUICK = {"int.minmax", "str.lenrange", "list.typed", "list.exact", "list.head", "list.body", "dict.strict", "dict.relaxed",
-         "dict.untyped", "nest.list.list", "any.3", "any.in.list", "alias", "alias.in.dict", "uuid4", "none"}
+         "dict.untyped", "nest.list.list", "any.3", "any.dup", "any.in.list", "alias", "alias.in.dict", "uuid4", "none"}
 
 
 def harnesses(tier, seed, active_kf=()):
@@ -67,5 +67,12 @@ def harnesses(tier, seed, active_kf=()):
             out.append(mk("C16.%s.gen.%s" % (e["name"], tag), e["params"] + ", " + tape,
                           GEN.format(spec=e["spec"], mask=repr(m)), covers=("same",),
                           pre=e["pre_light"] + ["len(c0) == 1 and len(c1) == 1 and len(c2) == 1"],
+                          timeout=e["timeout"] * 1.5, prelude=PRELUDE, functions=FUNCS, bounds=BOUNDS))
+        # substituting a bare ... (and other odd roots) must succeed or fail identically as well
+        if e["name"] in ("int.minmax", "dict.strict", "list.typed", "any.3", "alias"):
+            body = BODY.format(spec=e["spec"], val="pick((..., [...], {'a': ...}, None), zi)", mask=repr(masks[0])) \
+                .replace("custom_problem(spec, %r, val, val)" % (masks[0],), "custom_problem(spec, pick(MASKS, mi), val, val)")
+            out.append(mk("C16.%s.oddroot" % e["name"], e["params"] + ", zi: int, mi: int", "MASKS = %r\n" % (masks,) + body,
+                          covers=("same",), pre=e["pre_light"] + ["0 <= zi <= 3", "0 <= mi <= %d" % (len(masks) - 1)],
                           timeout=e["timeout"] * 1.5, prelude=PRELUDE, functions=FUNCS, bounds=BOUNDS))
     return out
